@@ -26,7 +26,7 @@ def run(pid, tier, replay=None):
     th = tier == "thorough"
     try:
         return V.pipeline(
-            pid, tier, replay, "mgmt", mc_runs=[("hist", "MgmtMC.tla", MC % (5 if th else 4), 8, 2400)], gens=[],
+            pid, tier, replay, "mgmt", mc_runs=[("hist", "MgmtMC.tla", MC % (4 if th else 3), 8, 2400)], gens=[],
             drivers=[("TestMgmtGen", {"VERIF_N": 1500 if th else 48, "VERIF_LEN": 30 if th else 25}, ["mgmt.ndjson"])],
             replay_driver=("TestMgmtReplay", "VERIF_REPLAY", "mgmt.ndjson"), trace_module="MgmtTrace.tla", trace_head=HEAD,
             props=PROPS, invs=INVS, nontrivial=nontrivial,
